@@ -91,6 +91,33 @@ CHECKS["C12"] = dict(
          "must-not-be-called (identical repeat), right identifier, twins equal, unsubscribed silent, model still updated.",
     technique="exhaustive enumeration of event histories up to a depth against a reference diff model")
 
+CHECKS["C14"] = dict(
+    level="model_checking", design="DESIGN.md §6 C14",
+    text="After a real init(): all histories (depth 6 quick, 8 thorough) of link loss (EOF, reset), console state edits while "
+         "disconnected, outage lengths (immediate, one refusal, 10/31/400 s), timer ticks, and for AT4 unsolicited group "
+         "status, a console that stops answering group status, non-group frames and a 100 s offset. Oracle at every quiescent "
+         "state: AC-status and zone-status requests at the instant of every post-init connection, getters equal the console "
+         "state, AT4 group status requested exactly at last-group-status + 300 s (and every 300 s while silent), never "
+         "otherwise, no zone poll on AT5; then a refresh with unchanged data notifies nobody.",
+    technique="explicit-state BFS over real executions against a reference view and a timed poll model")
+CHECKS["C04"] = dict(
+    level="exploration", design="DESIGN.md §6 C04",
+    text="Every public control call of both generations (AC 0..3 / 0..15, zones 0..15, every enum argument, temperatures "
+         "0.00..45.00 step 0.05, damper 0..100, quick timers 0..47 h x {0,1,30,59} min, times of day, update check) under four "
+         "ability configurations is issued on a real initialised client; the frame that reaches the console is read by the "
+         "spec-derived reference codec and must address the right entity, change exactly the requested attribute, keep every "
+         "other, be addressed 0x80/0x90 <- 0xB0 with a correct CRC.",
+    technique="exhaustive enumeration of API calls over finite argument domains against an independent reference decoder")
+CHECKS["C11"] = dict(
+    level="exploration", design="DESIGN.md §6 C11",
+    text="All 2^5 x 2^7 (AT4) / 2^5 x 2^8 (AT5) ability bitmaps (thorough; quick: every mode bitmap x 4 fan bitmaps and every "
+         "fan bitmap x 4 mode bitmaps) x every mode, fan and power argument; AC set-points -5.00..50.00 step 0.05 under every "
+         "mode-dependent limit pair; zone damper -5..105, zone set-points with/without sensor, zone power with/without turbo "
+         "support; set/clear of each quick timer for all 16 reported (on, off) pairs. Refusals must raise ValueError and "
+         "write zero bytes; accepted calls produce exactly one correctly shaped frame, rounded to the resolution and clamped; "
+         "the other timer is exactly as last reported.",
+    technique="exhaustive enumeration of API calls x configurations against an independent reference decoder")
+
 NOT_YET = {}
 
 
